@@ -393,7 +393,7 @@ class BodyEval:
             if "adt" in j:
                 return E("adt", ops, (j["adt"], j["variant"] if j.get("is_enum") else "", tuple(j["fields"])), (self.body.path, bb))
             if "closure" in j:
-                return E("closure", ops, j["closure"], (self.body.path, bb))
+                return E("closure", ops, self.world.prog.alias.get(j["closure"], j["closure"]), (self.body.path, bb))
             if j.get("tuple"):
                 return E("tuple", ops)
             if j.get("array"):
